@@ -222,6 +222,16 @@ def check(fb, ctx):
     conv = [b["key"] for b in fb.bodies.values() if b["crate"] == "biscuit_auth" and re.search(r"token::builder::Convert<.*>>::convert$", b["path"])]
     keys = set(fb.reachable(conv))
     reach.run(fb, ctx, conv, rule="REACH", exclude_fn=lambda b: not b["file"].startswith("biscuit-auth/src/token/builder/"))
+    # REBIND: binding a parameter again replaces the earlier value (templates are bound repeatedly): the setters store with an
+    # assignment / insert, never with a keep-the-first-value operation
+    n_set = 0
+    for key_, hs in fb.hir.items():
+        if hs.get("crate") != "biscuit_auth" or not re.search(r"token::builder::(fact|rule|check|policy)::\w+::(set|set_lenient|set_scope|set_scope_lenient|set_inner|set_macro_param|set_macro_scope_param)$", hs["path"]):
+            continue
+        n_set += 1
+        keep = [z for z in find_all(hs["body"], lambda z: z.get("k") == "mcall" and z.get("name") in ("get_or_insert", "get_or_insert_with", "or_insert", "or_insert_with", "or_default", "or_insert_with_key", "try_insert"))]
+        ctx.check(not keep, "REBIND", f"{'::'.join(hs['path'].split('::')[-2:])}: a later binding replaces an earlier one", f"REBIND|{hs['path']}", f"`{keep[0]['name'] if keep else ''}` keeps the value bound first: binding the same template again silently reuses the old value", f"{hs['file']}:{keep[0]['ln'] if keep else hs['line']}")
+    ctx.floor("parameter setters", n_set, 8)
     from props import c18
     c18.parallel_binding_rules(fb, ctx)
     ctx.not_decided = ["that substitution yields exactly the bound value beyond AST-level replacement (structural by construction)"]
